@@ -149,6 +149,21 @@ def export_record(p, sol):
                       "buffers": [{"name": b["name"], "times": b["level_change_times"], "levels": b["level"]} for b in j["buffers"].values()],
                       "indicators": [{"name": k, "value": v} for k, v in j["indicators"].items()],
                       "horizon": j["horizon"]}
+        with warnings.catch_warnings():
+            warnings.simplefilter("ignore")
+            jc = json.loads(sol.to_json(compact=True))
+
+        def _diff(a, b, path=""):
+            if isinstance(a, dict) and isinstance(b, dict):
+                out = []
+                for k in sorted(set(a) | set(b)):
+                    if k not in a or k not in b:
+                        out.append(f"{path}/{k}:missing")
+                    else:
+                        out += _diff(a[k], b[k], f"{path}/{k}")
+                return out
+            return [] if a == b else [f"{path}:differs"]
+        ex["json_compact_diff"] = _diff(j, jc)[:20]
         # CSV (through a file) and DataFrame
         path = os.path.join(d, "s.csv")
         sol.to_csv(path)
@@ -200,7 +215,9 @@ def gantt_record(p, sol):
         fig = plt.gcf()
         ax = fig.axes[0]
         g[key] = {"ylabels": [t.get_text() for t in ax.get_yticklabels()], "bars": _bars(ax),
-                  "texts": [t.get_text() for t in ax.texts]}
+                  "texts": [t.get_text() for t in ax.texts],
+                  # lines with data on the Gantt axes (the indicator legend uses empty lines): there must be none
+                  "extra_lines": sum(1 for ln in ax.lines if len(ln.get_xdata()) > 0)}
         if key == "res":
             bufs = []
             if sol.buffers and len(fig.axes) > 1:
